@@ -1,4 +1,4 @@
-package props
+package pbt
 
 import (
 	"fmt"
@@ -11,27 +11,27 @@ import (
 	"verif/internal/numref"
 )
 
-// opnd is an operand spec that can be written to JSON (floats by bit pattern),
+// Opnd is an operand spec that can be written to JSON (floats by bit pattern),
 // turned into a golua value, a Lua source expression, and a model number.
 //
 //	i:<decimal>   integer
 //	f:<hex bits>  float by IEEE bit pattern
 //	s:<text>      string
 //	nil, true, false, table
-type opnd string
+type Opnd string
 
-func oInt(i int64) opnd     { return opnd("i:" + strconv.FormatInt(i, 10)) }
-func oFloat(f float64) opnd { return opnd("f:" + strconv.FormatUint(math.Float64bits(f), 16)) }
-func oStr(s string) opnd    { return opnd("s:" + s) }
+func OInt(i int64) Opnd     { return Opnd("i:" + strconv.FormatInt(i, 10)) }
+func OFloat(f float64) Opnd { return Opnd("f:" + strconv.FormatUint(math.Float64bits(f), 16)) }
+func OStr(s string) Opnd    { return Opnd("s:" + s) }
 
 const (
-	oNil   opnd = "nil"
-	oTrue  opnd = "true"
-	oFalse opnd = "false"
-	oTable opnd = "table"
+	ONil   Opnd = "nil"
+	OTrue  Opnd = "true"
+	OFalse Opnd = "false"
+	OTable Opnd = "table"
 )
 
-func (o opnd) kind() byte {
+func (o Opnd) Kind() byte {
 	switch {
 	case strings.HasPrefix(string(o), "i:"):
 		return 'i'
@@ -39,48 +39,48 @@ func (o opnd) kind() byte {
 		return 'f'
 	case strings.HasPrefix(string(o), "s:"):
 		return 's'
-	case o == oNil:
+	case o == ONil:
 		return 'n'
-	case o == oTrue || o == oFalse:
+	case o == OTrue || o == OFalse:
 		return 'b'
 	default:
 		return 't'
 	}
 }
 
-func (o opnd) int() int64 {
+func (o Opnd) Int() int64 {
 	n, _ := strconv.ParseInt(string(o[2:]), 10, 64)
 	return n
 }
 
-func (o opnd) float() float64 {
+func (o Opnd) Float() float64 {
 	b, _ := strconv.ParseUint(string(o[2:]), 16, 64)
 	return math.Float64frombits(b)
 }
 
-func (o opnd) str() string { return string(o[2:]) }
+func (o Opnd) Str() string { return string(o[2:]) }
 
 // num returns the model number for numeric operands.
-func (o opnd) num() (numref.Num, bool) {
-	switch o.kind() {
+func (o Opnd) Num() (numref.Num, bool) {
+	switch o.Kind() {
 	case 'i':
-		return numref.Int(o.int()), true
+		return numref.Int(o.Int()), true
 	case 'f':
-		return numref.Float(o.float()), true
+		return numref.Float(o.Float()), true
 	}
 	return numref.Num{}, false
 }
 
-func (o opnd) value() rt.Value {
-	switch o.kind() {
+func (o Opnd) Value() rt.Value {
+	switch o.Kind() {
 	case 'i':
-		return rt.IntValue(o.int())
+		return rt.IntValue(o.Int())
 	case 'f':
-		return rt.FloatValue(o.float())
+		return rt.FloatValue(o.Float())
 	case 's':
-		return rt.StringValue(o.str())
+		return rt.StringValue(o.Str())
 	case 'b':
-		return rt.BoolValue(o == oTrue)
+		return rt.BoolValue(o == OTrue)
 	case 't':
 		return rt.TableValue(rt.NewTable())
 	}
@@ -88,22 +88,22 @@ func (o opnd) value() rt.Value {
 }
 
 // pretty is for messages.
-func (o opnd) pretty() string {
-	switch o.kind() {
+func (o Opnd) Pretty() string {
+	switch o.Kind() {
 	case 'i':
-		return strconv.FormatInt(o.int(), 10)
+		return strconv.FormatInt(o.Int(), 10)
 	case 'f':
-		f := o.float()
+		f := o.Float()
 		return fmt.Sprintf("%s(float %#x)", strconv.FormatFloat(f, 'g', -1, 64), math.Float64bits(f))
 	case 's':
-		return strconv.Quote(o.str())
+		return strconv.Quote(o.Str())
 	}
 	return string(o)
 }
 
-// luaFloat spells a float as a Lua expression that denotes exactly it and
+// LuaFloat spells a float as a Lua expression that denotes exactly it and
 // does not depend on decimal->binary conversion (hex float literal).
-func luaFloat(f float64) string {
+func LuaFloat(f float64) string {
 	switch {
 	case f != f:
 		return "(0/0)"
@@ -130,7 +130,7 @@ func luaFloat(f float64) string {
 	return s
 }
 
-func luaInt(i int64) string {
+func LuaInt(i int64) string {
 	if i == math.MinInt64 {
 		return "math.mininteger"
 	}
@@ -140,7 +140,7 @@ func luaInt(i int64) string {
 	return strconv.FormatInt(i, 10)
 }
 
-func luaString(s string) string {
+func LuaString(s string) string {
 	var sb strings.Builder
 	sb.WriteByte('"')
 	for i := 0; i < len(s); i++ {
@@ -160,22 +160,22 @@ func luaString(s string) string {
 }
 
 // lua spells the operand as a Lua source expression.
-func (o opnd) lua() string {
-	switch o.kind() {
+func (o Opnd) Lua() string {
+	switch o.Kind() {
 	case 'i':
-		return luaInt(o.int())
+		return LuaInt(o.Int())
 	case 'f':
-		return luaFloat(o.float())
+		return LuaFloat(o.Float())
 	case 's':
-		return luaString(o.str())
+		return LuaString(o.Str())
 	case 't':
 		return "{}"
 	}
 	return string(o)
 }
 
-// encNum encodes a model number like harness.Canon does for golua values.
-func encNum(n numref.Num) string {
+// EncNum encodes a model number like harness.Canon does for golua values.
+func EncNum(n numref.Num) string {
 	if n.IsInt {
 		return "i:" + strconv.FormatInt(n.I, 10)
 	}
